@@ -144,4 +144,29 @@ CHECKS = {
             'a slice read of the source fails iff it covers a failing index'],
         'probes': ['probe:range_iterator_readahead_fallback', 'probe:failure_inside_rebatched_call'],
     },
+    'C14': {
+        'families': [['c14:remote', 1.0]],
+        'runs': {'quick': 5000, 'thorough': 250000},
+        'budget': {'quick': 110, 'thorough': 1500},
+        'level': 'exploration',
+        'rule': ('each evaluation starts a real CourierServer (plus a host server) on the simulated network, and 1-3 '
+                 'client threads issue drawn operations through one CourierClient: lazy expression trees of depth <= 3 '
+                 '(nested calls, attributes, items, raising functions; cached results), async evaluation, chains on a '
+                 'RemoteObject (attr, method, item, call, state mutation, failing method), remote iterators (private and '
+                 'shared by all clients) and remote queues; message latencies drawn per message; optionally a '
+                 'shutdown (stop(), shutdown RPC, or kill of the node) after a drawn number of scheduling steps. '
+                 'Non-trivial = more than five context switches; distinct = distinct event-log digests'),
+        'real': REAL_COMMON + ['asyncio BaseEventLoop core', 'ml_metrics CourierServer/CourierClient/RemoteObject/lazy_fns, cloudpickle'],
+        'stub': STUB_COMMON + ['courier.Server/Client -> fakes/courier (in-process transport: by-value arguments, one handler '
+                               'thread per request, wait_for_ready, DEADLINE_EXCEEDED = code 4, no cancellation of handlers)',
+                               'asyncio selector/self-pipe/clock -> simkit.aioloop.SimEventLoop'],
+        'assumptions': ASSUME_COMMON + [
+            'the expected value of an expression is its plain-Python meaning (what local evaluation gives)',
+            'under a shutdown fault every call may end with the right value or with TimeoutError / RuntimeError '
+            '(worker disconnected, failed to connect) / the deadline status error; anything else is a violation',
+            'all simulated nodes share one interpreter (process-global registries and caches are shared), as in the upstream tests',
+            'the fake transport is my reading of courier/gRPC semantics; it is validated against the upstream test-suite, '
+            'not against the real library'],
+        'probes': ['probe:deadline_exceeded_under_shutdown'],
+    },
 }
